@@ -553,9 +553,53 @@ def resize_dim(spec, d, size):
     return ("node", tuple(b), names, [(k, resize_dim(e, d, size)) for k, e in entries])
 
 
+def insert_dim(spec, d, size):
+    """the same tree with a new batch dim of `size` inserted at position d (in every node and leaf)"""
+    if spec[0] == "leaf":
+        sh = list(spec[1]); sh.insert(d, size)
+        return ("leaf", tuple(sh))
+    _, bs, names, entries = spec
+    b = list(bs); b.insert(d, size)
+    return ("node", tuple(b), None, [(k, insert_dim(e, d, size)) for k, e in entries])
+
+
+def spec_sx_off(spec, off):
+    """like spec_sx, every leaf carrying the value offset of its operand"""
+    if spec[0] == "leaf":
+        return "(leaf (" + " ".join(map(str, spec[1])) + f") {off})"
+    _, bs, names, entries = spec
+    parts = ["node", "(" + " ".join(map(str, bs)) + ")",
+             "none" if names is None else "(" + " ".join("none" if n is None else n for n in names) + ")"]
+    for k, e in entries:
+        parts.append(f"({k} {spec_sx_off(e, off)})")
+    return "(" + " ".join(parts) + ")"
+
+
+def canon_sorted(td):
+    """canon() with the entries of every node sorted by key (torch.stack iterates a *set* of keys)"""
+    c = canon(td)
+
+    def srt(x):
+        if x[0] == "leaf":
+            return x
+        return x[:3] + sorted(([k, srt(v)] for k, v in x[3:]), key=lambda kv: kv[0])
+    return srt(c)
+
+
+def sort_parsed(x):
+    if x[0] == "leaf":
+        return x
+    return x[:3] + sorted(([k, sort_parsed(v)] for k, v in x[3:]), key=lambda kv: kv[0])
+
+
+def drop_key(spec, key):
+    _, bs, names, entries = spec
+    return ("node", bs, names, [(k, e) for k, e in entries if k != key])
+
+
 def gen_ext(rng):
     """one case of the ops the model does not cover: (kind, specs, args)"""
-    kind = rng.choice(["repeat", "repeat_interleave", "gather", "masked_select", "stack", "cat", "stack_out", "cat_out", "cat_lazy_out"])
+    kind = rng.choice(["repeat", "repeat_interleave", "gather", "masked_select", "stack", "cat", "stack_out", "cat_out", "cat_lazy_out", "stack_lazy_out"])
     wild = rng.random() < 0.2      # out-of-range dims / negative repeats
     # (repeat on a 0-d batch would be `td.repeat()` with no repeats: torch's varargs API has no such spelling)
     rank = rng.choice([0, 1, 2, 2, 3, 3, 4]) if kind in ("stack", "stack_out") else rng.choice([1, 2, 2, 3, 3, 4])
@@ -586,6 +630,12 @@ def gen_ext(rng):
     if kind in ("stack", "stack_out"):
         d = rng.randint(-n - 3, n + 2) if wild else rng.randint(-n - 1, n)
         return kind, [spec] * k, (d,)
+    if kind == "stack_lazy_out":
+        spec = gen_tree(rng, tuple(max(x, 1) for x in bs), named=False, nested=False, allow_empty=False)
+        d = rng.randint(-n - 1, n)
+        dd = d + n + 1 if d < 0 else d
+        sd = rng.randrange(n + 1)
+        return kind, [spec] * k, (d, sd)
     if kind == "cat_lazy_out":
         spec = strip_names(spec)
         bs2 = tuple(max(x, 1) for x in bs)
@@ -606,7 +656,7 @@ def ext_names(kind, names, n, args):
         if kind == "repeat_interleave" and args[1] is None and n > 1:
             return None
         return list(names)
-    if kind in ("stack", "stack_out"):
+    if kind in ("stack", "stack_out", "stack_lazy_out"):
         d = args[0] + n + 1 if args[0] < 0 else args[0]
         return list(names[:d]) + [None] + list(names[d:])
     if kind == "cat_lazy_out":
@@ -634,6 +684,17 @@ def oracle_ext(run, kind, specs, args, site="shape_op_ext"):
         if kind == "masked_select":
             return x.masked_select(args[0]) if not isinstance(x, torch.Tensor) else x[args[0]]
         f = torch.stack if kind.startswith("stack") else torch.cat
+        if kind == "stack_lazy_out":
+            if isinstance(x, torch.Tensor):
+                return torch.stack(list(objs), args[0])
+            from tensordict import LazyStackedTensorDict
+            sd = args[1]
+            dd_ = args[0] + n + 1 if args[0] < 0 else args[0]
+            new_bs = list(specs[0][1]); new_bs.insert(dd_, len(specs))
+            out_spec = insert_dim(specs[0], dd_, len(specs))
+            out = LazyStackedTensorDict.lazy_stack([build_select(out_spec, sd, i).apply(lambda v: torch.zeros_like(v)) for i in range(new_bs[sd])], sd)
+            torch.stack(list(objs), args[0], out=out)
+            return out.contiguous()
         if kind == "cat_lazy_out":
             if isinstance(x, torch.Tensor):
                 return torch.cat(list(objs), args[0])
@@ -712,7 +773,7 @@ def oracle_ext(run, kind, specs, args, site="shape_op_ext"):
 
 
 def check_ext_entries(res, specs, n, kind, args, ref, prefix):
-    multi = kind in ("stack", "cat", "stack_out", "cat_out", "cat_lazy_out")
+    multi = kind in ("stack", "cat", "stack_out", "cat_out", "cat_lazy_out", "stack_lazy_out")
     for j, (k, e) in enumerate(specs[0][3]):
         v = res.get(k)
         es = [s[3][j][1] for s in specs]
